@@ -41,6 +41,15 @@ Fixpoint ids_sorted (l : list bytes) : bool :=
   | _ => true
   end.
 
+(* no id is listed twice in a row (with ids_sorted: no id is listed twice at all) *)
+Fixpoint ids_adj_distinct (l : list bytes) : bool :=
+  match l with
+  | a :: ((b :: _) as r) => negb (bytes_eqb a b) && ids_adj_distinct r
+  | _ => true
+  end.
+(* checkFileIDSetsSorted: sorted, and every id at most once *)
+Definition ids_ok (l : list bytes) : bool := ids_sorted l && ids_adj_distinct l.
+
 Fixpoint chunks_of (n : nat) (fuel : nat) (b : bytes) : list bytes :=
   match fuel with
   | O => []
@@ -92,7 +101,7 @@ Section Par2.
   Definition write_main (m : mainpkt) : outcome bytes :=
     if (mp_slice m =? 0) || negb (mp_slice m mod 4 =? 0) then Err EMalformed
     else if Nat.eqb (length (mp_rec m)) 0 then Err EMalformed
-    else if negb (ids_sorted (mp_rec m)) || negb (ids_sorted (mp_nonrec m)) then Err EMalformed
+    else if negb (ids_ok (mp_rec m)) || negb (ids_ok (mp_nonrec m)) then Err EMalformed
     else Ok (le_encode 8 (mp_slice m) ++ le_encode 4 (N.of_nat (length (mp_rec m))) ++ concat (mp_rec m) ++ concat (mp_nonrec m)).
 
   Definition read_main (body : bytes) : outcome mainpkt :=
@@ -110,7 +119,7 @@ Section Par2.
         else
           let rs := firstn (N.to_nat cnt) ids in
           let nrs := skipn (N.to_nat cnt) ids in
-          if negb (ids_sorted rs) || negb (ids_sorted nrs) then Err EMalformed
+          if negb (ids_ok rs) || negb (ids_ok nrs) then Err EMalformed
           else Ok {| mp_slice := slice; mp_rec := rs; mp_nonrec := nrs |}.
 
   Definition compute_file_id (h16k : bytes) (len : N) (name : bytes) : bytes :=
